@@ -55,7 +55,7 @@ var sysScenariosCMP = []struct {
 	k    scen.Kind
 	n, t int
 }{
-	{scen.CMP, scen.KSign, 2, 1}, {scen.CMP, scen.KPresignFull, 2, 1},
+	{scen.CMP, scen.KSign, 2, 1}, {scen.CMP, scen.KPresignFull, 2, 1}, {scen.CMP, scen.KKeygen, 2, 1}, {scen.CMP, scen.KRefresh, 2, 1},
 }
 
 const sysCellsPerScenarioCMP = 760
@@ -89,6 +89,11 @@ func runC05Systematic(c *fw.Ctx) {
 		return
 	}
 	wrapped := cell >= b.CellCount
+	if wrapped {
+		// the catalogue of this scenario has fewer cells than the slots reserved for it
+		c.Res.Desc = fmt.Sprintf("systematic %s: slot %d beyond the %d cells of the catalogue", sc.Name, cell, b.CellCount)
+		return
+	}
 	b.Start()
 	b.Sess.Net.Policy = sim.FIFO{}
 	b.Sess.Net.Run()
